@@ -244,7 +244,37 @@ pub fn obs_event_over<P: PT>(
         let q: P = ctx.dec(qj);
         qs.push(query_record(ctx, m, qj, &q));
     }
-    json!({"a": "Obs", "E": e_json, "iter": iter_json, "len": m.len(), "empty": m.is_empty(), "qs": qs})
+    // sub-trie views, judged against the same contents: the whole sub-view graph below view_at(q) for a few
+    // q (C11) and searches from those views (C12)
+    let mut vd = vec![];
+    let mut fd = vec![];
+    let val = |v: &i32| *v;
+    for (i, qj) in queries.iter().enumerate().take(5) {
+        let q: P = ctx.dec(qj);
+        let at = m.view_at(q.clone());
+        let d = match &at {
+            Some(v) => json!([crate::views::desc(ctx, v, &val, 0)]),
+            None => json!([]),
+        };
+        vd.push(json!({"q": {"n": qj["n"], "h": "0"}, "d": d}));
+        if let Some(v) = at {
+            for (j, q2j) in queries.iter().enumerate().skip(i % 3).step_by(3).take(4) {
+                let q2: P = ctx.dec(q2j);
+                let kind = ["find", "find_exact", "find_lpm"][(i + j) % 3];
+                let res = match kind {
+                    "find" => v.find(q2.clone()),
+                    "find_exact" => v.find_exact(&q2),
+                    _ => v.find_lpm(&q2),
+                };
+                let r = match res {
+                    Some(x) => json!([crate::views::short(ctx, &x, &val)]),
+                    None => json!([]),
+                };
+                fd.push(json!({"q0": {"n": qj["n"], "h": "0"}, "q": {"n": q2j["n"], "h": "0"}, "kind": kind, "r": r}));
+            }
+        }
+    }
+    json!({"a": "Obs", "E": e_json, "iter": iter_json, "len": m.len(), "empty": m.is_empty(), "qs": qs, "vd": vd, "fd": fd})
 }
 
 fn obs_event<P: PT>(g: &mut Gen, ctx: &Ctx, m: &PrefixMap<P, i32>) -> Value {
@@ -435,4 +465,78 @@ pub fn drive<P: PT>(seed: u64, runs: usize, events: usize, prof: &Profile, out: 
         }
     }
     json!({"lines": total, "per_action": per_action, "max_entries": max_entries, "ptype": P::NAME, "seed": seed})
+}
+
+
+/// Re-execute a recorded sequence of events (results ignored) on fresh collections and log what
+/// the current code does -- used by `./check --replay` for counterexamples found by trace validation.
+pub fn rerun<P: PT>(events: &[Value], out: &mut dyn Write) -> Value {
+    let ctx = Ctx::plain(P::TW);
+    let mut a: PrefixMap<P, i32> = PrefixMap::new();
+    let mut b: PrefixMap<P, i32> = PrefixMap::new();
+    let mut universe: Vec<Vec<u8>> = vec![vec![]];
+    let mut n = 0u64;
+    let note = |u: &mut Vec<Vec<u8>>, v: &Value| {
+        if let Some(bits) = v.get("n") {
+            let k = Ctx::bits(bits);
+            if !u.contains(&k) {
+                u.push(k);
+            }
+        }
+    };
+    for ev0 in events {
+        let mut ev = ev0.clone();
+        for k in ["ret", "pan", "x", "t"] {
+            if let Some(o) = ev.as_object_mut() {
+                o.remove(k);
+            }
+        }
+        for k in ["p", "q", "qa", "qb"] {
+            if let Some(v) = ev.get(k) {
+                note(&mut universe, v);
+            }
+        }
+        let name = ev["a"].as_str().unwrap_or("?").to_string();
+        n += 1;
+        if name == "Reset" {
+            a = PrefixMap::new();
+            b = PrefixMap::new();
+            writeln!(out, "{}", json!({"a": "Reset"})).unwrap();
+            continue;
+        }
+        if name == "Obs" {
+            for e in ev0["E"].as_array().cloned().unwrap_or_default() {
+                note(&mut universe, &e);
+            }
+            let queries: Vec<Value> = ev0["qs"].as_array().map(|qs| qs.iter().map(|q| q["q"].clone()).collect()).unwrap_or_default();
+            for q in &queries {
+                note(&mut universe, q);
+            }
+            watch_begin(&json!({"a": "Obs"}));
+            let mut l = obs_event_over(&ctx, &a, &universe, &queries);
+            if ev0.get("nolen").is_some() {
+                l["nolen"] = json!(true);
+            }
+            writeln!(out, "{}", serde_json::to_string(&l).unwrap()).unwrap();
+            continue;
+        }
+        if crate::pairs::is_pair_op(&name) {
+            let o = if name == "Eq" {
+                Outcome { ret: a.pair_eq(&b), pan: false }
+            } else {
+                let qa: P = ctx.dec(&ev["qa"]);
+                let qb: P = ctx.dec(&ev["qb"]);
+                guarded(|| a.pair_op(&mut b, &ctx, &name, &qa, &qb))
+            };
+            log_line(out, &ev, &o, None, None);
+            continue;
+        }
+        let on_b = ev.get("m").and_then(|m| m.as_str()) == Some("B");
+        let target = if on_b { &mut b } else { &mut a };
+        let o = apply::<P, PrefixMap<P, i32>>(target, &ev, &ctx).expect("map event");
+        let snap = acct(&target.verif_snapshot());
+        let tree = Some(Coll::<P>::tree(target, &ctx));
+        log_line(out, &ev, &o, Some(snap), tree);
+    }
+    json!({"lines": n, "ptype": P::NAME})
 }
